@@ -1,0 +1,14 @@
+//go:build verif
+
+package crypto
+
+import "crypto/rsa"
+
+// C10SetYggdrasilSessionPubKey replaces the trust anchor that player-key signatures are verified
+// against and returns the previous one.  Verification hook for property C10: it lets the harness present
+// player keys with a VALID signature (signed by a harness-owned key); no logic of its own.
+func C10SetYggdrasilSessionPubKey(k *rsa.PublicKey) (old *rsa.PublicKey) {
+	old = yggdrasilSessionPubKey
+	yggdrasilSessionPubKey = k
+	return old
+}
